@@ -86,6 +86,11 @@ def rewrites(rng, q):
             out.append(("escape", " ".join(toks[:i] + ['"%s"' % octal] + toks[i + 1:])))
             out.append(("raw", " ".join(toks[:i] + ['r"%s"' % body] + toks[i + 1:])))
             break
+    # layout inside a splice: the embedded program is a program like any other
+    if "%(" in q:
+        out.append(("splice-layout", q.replace("%(", "%(\n", 1)))
+        out.append(("splice-layout", q.replace("%)", " // c\n %)", 1)))
+        out.append(("splice-layout", q.replace("%(", "%( /* c */\n\t", 1)))
     for d, ex in (("%s", "%( %)"), ("%d", "%( value %)"), ("%x", "%( value hex %)"), ("%o", "%( value oct %)"), ("%b", "%( value bin %)")):
         if d in q:
             out.append(("directive", q.replace(d, ex, 1)))
@@ -123,7 +128,7 @@ def run(ctx):
     rng = ctx.sub_rng("rw")
     g = zgen.G(ctx.sub_rng("gen"), max_depth=3, illtyped=0.03)
     progs = [g.program() for _ in range(700 if quick else 8000)]
-    progs += ["1 () () 2", "[(()) 1 () (2, 3)]", "() 1 () () 2 () 3 ()", "(() ()) 1", "1 (() 2 ()) () 3", '1 "x%dy" "%s%s"', '"a\\x41b" length', '"tab\\there"', '7 "%x %o %b %d"', '"" ""', '"%%"']
+    progs += ["1 () () 2", "[(()) 1 () (2, 3)]", "() 1 () () 2 () 3 ()", "(() ()) 1", "1 (() 2 ()) () 3", '1 "x%dy" "%s%s"', '"a\\x41b" length', '"tab\\there"', '7 "%x %o %b %d"', '"" ""', '"%%"', '1 "a%( 2 %)b"', '"%( 1 2 add %)"', '(1, 2) "<%( dup 1 add %)|%( 7 %)>"', '"%( "in%( 3 %)ner" %)"']
     evaluations = 0
     nontrivial = set()
     kinds = {}
